@@ -85,6 +85,7 @@ OPTIONS_AFFECTING_CACHE: Final = (
         # stored in the cache (error_lines), so cached results are not valid across them.
         "allow_empty_bodies",
         "deprecated_calls_exclude",
+        "hide_error_codes",
         "report_deprecated_as_note",
         "show_absolute_path",
         "show_error_code_links",
